@@ -310,15 +310,16 @@ class Model:
             allev.append(ev)
         # positions (design units): pen runs in visual order; RTL fonts place the last slot first
         order = list(stream) if not self.fontdir else list(reversed(stream))
-        pen = 0.0
+        pen, peny = 0.0, 0.0
         for s in order:
             if s.parent is None:
-                self.place(s, pen, 0.0)
+                self.place(s, pen, peny)
                 pen = pen + s.advx
+                peny = peny + s.advy
         adv = pen
         if textdir != self.fontdir:
             stream.reverse()
-        return dict(stream=stream, advance=adv, events=allev, fired=total_fired)
+        return dict(stream=stream, advance=adv, advance_y=peny, events=allev, fired=total_fired)
 
     def place(self, s, bx, by):
         sx = -s.shiftx if self.fontdir else s.shiftx
